@@ -209,7 +209,7 @@ def future_script(rng, i):
     checks, gens = [], []
     ops.append({"op": "app", "who": snd, "id": "g0", "data": "00"})
     ops.append({"op": "app", "who": snd, "id": "g1", "data": "01"})
-    ops.append({"op": "app", "who": snd, "id": "far", "data": "ff", "burn": 1024 + rng.below(40)})
+    ops.append({"op": "app", "who": snd, "id": "far", "data": "ff", "burn": 1025 + rng.below(40)})
     past = rng.chance(1, 2)
     if past:
         c = rng.choice([n for n in names if n != snd])
